@@ -404,6 +404,9 @@ func c10Run(c c10Case) (v vVerdict) {
 				sep = 1 // two columns whose channel numbers would collide: the start must fail (when the channels are numbered)
 			}
 			card := &vLiveCard{cols: cols, rows: rows, period: time.Duration(20000 * rows * 8), t0: vPipeT0}
+			if c.FailBy == "stopcollector" {
+				card.stopCollFaultAt = 2
+			}
 			ls.devices = map[int]*LanceroDevice{0: {devnum: 0, card: card}}
 			ls.ncards = 1
 			err := ls.Configure(&LanceroSourceConfig{FiberMask: 0xffff, ActiveCards: []int{0}, CardDelay: []int{1}, FirstRow: 1, ChanSepColumns: sep})
@@ -504,6 +507,7 @@ func c10Run(c c10Case) (v vVerdict) {
 	e.baseline = c10Census()
 	running := false    // harness' knowledge: started and not yet stopped/ended
 	writing := false
+	pausedRuns := 0
 	failNext := ""
 	endEarly := false
 	nchan := c.Nchan
@@ -751,6 +755,12 @@ func c10Run(c c10Case) (v vVerdict) {
 				for e.ds.GetState() != Inactive && time.Now().Before(deadline) {
 					time.Sleep(200 * time.Microsecond)
 				}
+				// the run is over and nobody has called Stop: what belongs to the run must be closed already (a Stop call
+				// that finds the source Inactive has nothing to do)
+				if e.ds.GetState() == Inactive && e.ds.WritingIsActive() {
+					ws := e.ds.ComputeWritingState()
+					return vFailf("writing-active-after-self-end", "op %d: the source ended itself (%s) and is Inactive, but writing is still reported active (paused=%v, %s)", i, op.Kind, ws.Paused, ws.FilenamePattern)
+				}
 			} else if op.N > 1 {
 				time.Sleep(time.Duration(op.N) * 100 * time.Microsecond)
 			}
@@ -804,6 +814,12 @@ func c10Run(c c10Case) (v vVerdict) {
 			}
 			e.queue(func() { e.ds.WriteControl(&WriteControlConfig{Request: "STOP"}) }, 8*time.Second)
 			writing = false
+		case "wpause":
+			if !running || !writing {
+				continue
+			}
+			e.queue(func() { e.ds.WriteControl(&WriteControlConfig{Request: "PAUSE"}) }, 8*time.Second)
+			pausedRuns++
 		case "archive":
 			if !running {
 				continue
@@ -916,11 +932,17 @@ func c10Run(c c10Case) (v vVerdict) {
 		v.Classes = append(v.Classes, "write-start-failing-late")
 	}
 	v.Classes = append(v.Classes, "source-"+c.Source)
+	if pausedRuns > 0 {
+		v.Classes = append(v.Classes, "writing-paused-when-the-run-ends")
+	}
+	if c.FailBy == "stopcollector" && restarts > 0 {
+		v.Classes = append(v.Classes, "restart-after-driver-error-at-stop")
+	}
 	return v
 }
 
 func c10Gen(t *rapid.T) c10Case {
-	c := c10Case{Source: rapid.SampledFrom([]string{"scripted", "scripted", "scripted", "scripted", "triangle", "simpulse", "erroring", "abaco", "udp", "udp2", "lancero", "roach"}).Draw(t, "source"),
+	c := c10Case{Source: rapid.SampledFrom([]string{"scripted", "scripted", "scripted", "scripted", "triangle", "simpulse", "erroring", "abaco", "udp", "udp2", "lancero", "lancero", "roach"}).Draw(t, "source"),
 		Nchan: rapid.IntRange(1, 4).Draw(t, "nchan")}
 	stops := func() c10Op {
 		k := rapid.SampledFrom([]int{1, 1, 2, 3, 4}).Draw(t, "k")
@@ -935,6 +957,8 @@ func c10Gen(t *rapid.T) c10Case {
 	}
 	if c.Source == "lancero" && rapid.Bool().Draw(t, "chansep") {
 		c.FailBy = "chansep"
+	} else if c.Source == "lancero" && rapid.Bool().Draw(t, "stopcollector") {
+		c.FailBy = "stopcollector" // the card's driver reports an error when the collector is stopped (once): the next start must still work
 	}
 	if c.Source == "udp" || c.Source == "udp2" {
 		c.Unwrap = rapid.SampledFrom([]int{0, 0, 1, 2, 3}).Draw(t, "unwrapopts")
@@ -943,11 +967,14 @@ func c10Gen(t *rapid.T) c10Case {
 	if c.Source == "abaco" || c.Source == "udp" || c.Source == "udp2" || c.Source == "lancero" || c.Source == "roach" {
 		nrounds = rapid.IntRange(1, 2).Draw(t, "rounds2")
 	}
+	if c.FailBy == "stopcollector" {
+		nrounds = 2 // the same card is started again after the stop that met the driver error
+	}
 	for r := 0; r < nrounds; r++ {
 		if c.Source == "scripted" && rapid.IntRange(0, 3).Draw(t, "fail") == 0 {
 			c.Ops = append(c.Ops, c10Op{Op: "failnext", Kind: rapid.SampledFrom([]string{"sample", "run"}).Draw(t, "failkind")}, c10Op{Op: "start"})
 		}
-		if rapid.IntRange(0, 3).Draw(t, "reconf") == 0 {
+		if rapid.IntRange(0, 3).Draw(t, "reconf") == 0 && !(c.FailBy == "stopcollector" && r > 0) {
 			c.Ops = append(c.Ops, c10Op{Op: "reconf", N: rapid.IntRange(0, 5).Draw(t, "nch")})
 		}
 		c.Ops = append(c.Ops, c10Op{Op: "start"})
@@ -956,7 +983,9 @@ func c10Gen(t *rapid.T) c10Case {
 		}
 		n := rapid.IntRange(0, 5).Draw(t, "nmid")
 		for i := 0; i < n; i++ {
-			switch rapid.IntRange(0, 6).Draw(t, "mid") {
+			switch rapid.IntRange(0, 7).Draw(t, "mid") {
+			case 7:
+				c.Ops = append(c.Ops, c10Op{Op: "wpause"})
 			case 0:
 				c.Ops = append(c.Ops, c10Op{Op: "request"})
 			case 1, 2:
